@@ -4,23 +4,24 @@
    Model: Env/Header.v, Env/Sig.v, Env/Lifecycle.v ([step : fixes -> env -> op -> env * outcome],
    [run] = fold_left of [step] over a history), abstraction and decision table in Env/Abs.v.
    [hash] (the document digest) is universally quantified: nothing is assumed about it.
-   [repaired] is the code after fixes/C10-10-*.diff and fixes/C10-11-*.diff; the theorems named
-   *_shipped* are about the repository as it stands and document the defects.
+   [shipped] is the repository as it stands (commit b9cd510, nil guards of 3e1b1c1 included),
+   [repaired] the code after fixes/C10-10-*.diff (and C09-9); theorems quantified over [fx] hold
+   for both, the ones named *_shipped* document the open defect.
    Tie to envelope.go & co: tools/props/c10.py (exhaustive histories on the real library). *)
 From Coq Require Import ZArith List Bool.
-From Verif Require Import Base.Wire Env.Header Env.HeaderProofs Env.Sig Env.Lifecycle Env.Abs Env.LifecycleProofs.
+From Verif Require Import Base.Wire Env.Header Env.HeaderProofs Env.Sig Env.Lifecycle Env.Abs Env.LifecycleProofs Env.SameProofs.
 Import ListNotations.
 Open Scope Z_scope.
 
 (* ---- the outcome of every API operation is a function of the abstract state ---- *)
 Theorem outcome_table_correct hash fx e o :
-  fix11 fx = true -> wf e -> api_op o ->
+  wf e -> api_op o ->
   snd (step hash fx e o) = outcome_table (abs hash e) o.
 Proof. exact (outcome_follows_table hash fx e o). Qed.
 Print Assumptions outcome_table_correct.
 
 Theorem outcome_determined_by_abs hash fx e1 e2 o :
-  fix11 fx = true -> wf e1 -> wf e2 -> api_op o -> abs hash e1 = abs hash e2 ->
+  wf e1 -> wf e2 -> api_op o -> abs hash e1 = abs hash e2 ->
   snd (step hash fx e1 o) = snd (step hash fx e2 o).
 Proof. exact (LifecycleProofs.outcome_determined_by_abs hash fx e1 e2 o). Qed.
 Print Assumptions outcome_determined_by_abs.
@@ -32,15 +33,24 @@ Theorem api_histories_stay_wellformed hash fx ops :
 Proof. exact (reachable_wf hash fx ops). Qed.
 Print Assumptions api_histories_stay_wellformed.
 
+(* on those histories the proposed repair is invisible: the repository as shipped and the
+   repaired code pass through the same states with the same outcomes *)
+Theorem repairs_invisible_on_api_histories hash ops :
+  Forall api_op ops ->
+  run hash shipped new_envelope ops = run hash repaired new_envelope ops /\
+  trace hash shipped new_envelope ops = trace hash repaired new_envelope ops.
+Proof. exact (SameProofs.repairs_invisible_on_api_histories hash ops). Qed.
+Print Assumptions repairs_invisible_on_api_histories.
+
 (* the four-fact form of the statement, for the outcomes it names *)
 Theorem sign_outcome_four_facts hash fx e k :
-  fix11 fx = true -> wf e ->
+  wf e ->
   (snd (step hash fx e (Sign k)) = OK <-> valid_for_signing e = true /\ digest_matches hash e = true).
 Proof. exact (LifecycleProofs.sign_outcome_four_facts hash fx e k). Qed.
 Print Assumptions sign_outcome_four_facts.
 
 Theorem verify_outcome_four_facts hash fx e k :
-  fix11 fx = true -> wf e ->
+  wf e ->
   (snd (step hash fx e (Verify [k])) = OK <->
    signed e = true /\ forall s, In s (sigs e) -> exists h2, s = Sig k h2 /\ contains_opt (head e) h2 = true).
 Proof. exact (LifecycleProofs.verify_outcome_four_facts hash fx e k). Qed.
@@ -58,7 +68,7 @@ Print Assumptions sign_requires_valid_and_digest.
 (* over every API history: each signature in the list was made over a header carrying the
    digest of a document that was valid for signing *)
 Theorem signatures_cover_valid_content hash fx ops :
-  fix11 fx = true -> fix10 fx = true -> Forall api_op ops ->
+  Forall api_op ops ->
   Forall (sig_good hash) (sigs (run hash fx new_envelope ops)).
 Proof. exact (LifecycleProofs.signatures_cover_valid_content hash fx ops). Qed.
 Print Assumptions signatures_cover_valid_content.
@@ -96,43 +106,26 @@ Theorem readonly_ops_are_identity hash fx e ks :
 Proof. exact (conj (readonly_validate hash fx e) (readonly_verify hash fx e ks)). Qed.
 Print Assumptions readonly_ops_are_identity.
 
-(* repaired code: Validate, Verify and Sign return, they never dereference nil - any state *)
-Theorem repaired_never_panics hash e ks k :
-  validate hash repaired e <> PANIC /\ verify repaired e ks <> PANIC /\
-  snd (step hash repaired e (Sign k)) <> PANIC.
+(* Validate, Verify and Sign return, they never dereference nil - any state, either variant
+   (the nil guards of commit 3e1b1c1 are part of the model of the shipped code) *)
+Theorem never_panics hash fx e ks k :
+  validate hash fx e <> PANIC /\ verify e ks <> PANIC /\ snd (step hash fx e (Sign k)) <> PANIC.
 Proof.
-  exact (conj (validate_repaired_nopanic hash e) (conj (verify_repaired_nopanic e ks) (sign_repaired_nopanic hash e k))).
+  exact (conj (validate_nopanic hash fx e) (conj (verify_nopanic e ks) (sign_nopanic hash fx e k))).
 Qed.
-Print Assumptions repaired_never_panics.
+Print Assumptions never_panics.
 
 (* ---- the repository as shipped ---- *)
 
-(* defect 10: "sigs":[""] *)
+(* defect 10, what is left of it: "sigs":[""] gives an entry that is no signature; the envelope
+   counts as signed and validates - stamps included - although nobody signed it *)
 Theorem every_signature_is_real_shipped_refuted :
   exists ops, let e := run h0 shipped new_envelope ops in
     forallb is_real (sigs e) = false /\ signed e = true /\ validate h0 shipped e = OK /\
-    verify shipped e [] = PANIC /\ verify shipped e [0] = PANIC.
+    (exists h, head e = Some h /\ stamps h <> []) /\
+    verify e [] = ERR EValidation /\ verify e [0] = ERR EValidation.
 Proof. exact LifecycleProofs.every_signature_is_real_shipped_refuted. Qed.
 Print Assumptions every_signature_is_real_shipped_refuted.
-
-(* defect 11: nil header, nil digest, null link, null stamps *)
-Theorem verify_never_panics_shipped_refuted :
-  (exists ops, verify shipped (run h0 shipped new_envelope ops) [0] = PANIC /\
-               ops = [Insert base0; Sign 0; ReparseNilHead]) /\
-  (exists ops, verify shipped (run h0 shipped new_envelope ops) [0] = PANIC /\
-               ops = [Insert base0; Sign 0; ReparseNilDig]) /\
-  (exists ops, validate h0 shipped (run h0 shipped new_envelope ops) = PANIC /\
-               ops = [Insert base0; ReparseNullLink]) /\
-  (exists ops, validate h0 shipped (run h0 shipped new_envelope ops) = PANIC /\
-               ops = [Insert base0; Sign 0; ReparseNullStamp; ReparseNullStamp]).
-Proof. exact LifecycleProofs.verify_never_panics_shipped_refuted. Qed.
-Print Assumptions verify_never_panics_shipped_refuted.
-
-Theorem sign_panic_leaves_signature_shipped :
-  exists ops, let e := run h0 shipped new_envelope ops in
-    snd (step h0 shipped e (Sign 0)) = PANIC /\ signed (fst (step h0 shipped e (Sign 0))) = true /\ signed e = false.
-Proof. exact LifecycleProofs.sign_panic_leaves_signature_shipped. Qed.
-Print Assumptions sign_panic_leaves_signature_shipped.
 
 (* why failed_sign_leaves_unsigned asks for a header (a state no API operation reaches) *)
 Theorem failed_sign_without_header_keeps_signatures :
@@ -142,6 +135,12 @@ Proof. exact LifecycleProofs.failed_sign_without_header_keeps_signatures. Qed.
 Print Assumptions failed_sign_without_header_keeps_signatures.
 
 (* ---- non-vacuity ---- *)
+Example former_nil_dereferences_return :
+  verify (run h0 shipped new_envelope [Insert base0; Sign 0; ReparseNilHead]) [0] = ERR EValidation /\
+  verify (run h0 shipped new_envelope [Insert base0; Sign 0; ReparseNilDig]) [0] = ERR EValidation /\
+  validate h0 shipped (run h0 shipped new_envelope [Insert base0; ReparseNullLink]) = OK /\
+  validate h0 shipped (run h0 shipped new_envelope [Insert base0; Sign 0; ReparseNullStamp; ReparseNullStamp]) = OK.
+Proof. exact LifecycleProofs.former_nil_dereferences_return. Qed.
 Example sign_succeeds_somewhere :
   snd (step h0 repaired (run h0 repaired new_envelope [Insert base0]) (Sign 0)) = OK.
 Proof. exact sign_succeeds_example. Qed.
